@@ -9,6 +9,7 @@
 #include <cstring>
 #include <cstdint>
 #include <cstdlib>
+#include <cstdio>
 #include <gmp.h>
 #include "gmp++/gmp++.h"
 #include "givrational.h"
@@ -76,6 +77,42 @@ static std::string run(const std::string& v, const std::vector<std::string>& a) 
     if (v == "q.init.int64") { Rational r(7, 5); Q.init(r, (int64_t) toi64(a[0])); return str(r); }
     // ------------------------------------------------ everything else has a first operand x = a0/a1
     Rational x = mk(a[0], a[1]);
+    // ------------------------------------------------ a sequence of in-place operations on one object
+    if (v == "seq") {
+        for (size_t i = 2; i + 2 < a.size(); i += 3) {
+            const std::string& op = a[i]; Rational y = mk(a[i + 1], a[i + 2]);
+            if (op == "a") x += y; else if (op == "s") x -= y; else if (op == "m") x *= y; else if (op == "d") x /= y;
+            else if (op == "qa") Q.addin(x, y); else if (op == "qs") Q.subin(x, y); else if (op == "qm") Q.mulin(x, y); else if (op == "qd") Q.divin(x, y);
+            else if (op == "A") x += x; else if (op == "S") x -= x; else if (op == "M") x *= x; else if (op == "D") x /= x;
+            else if (op == "n") Q.negin(x); else if (op == "i") Q.invin(x); else if (op == "N") x = -x;
+            else if (op == "t") x = x + y; else if (op == "u") x = x - y; else if (op == "p") x = x * y; else if (op == "q") x = x / y;
+            else if (op == "xa") Q.axpyin(x, y, y); else if (op == "xm") Q.maxpyin(x, y, y);
+            else return "UNKNOWN-SEQ-OP";
+        }
+        return str(x);
+    }
+    // ------------------------------------------------ conversions, printing, residue
+    if (v == "conv.int") { o << (int) x; return o.str(); }
+    if (v == "conv.int64") { o << (int64_t) x; return o.str(); }
+    if (v == "conv.uint64") { o << (uint64_t) x; return o.str(); }
+    if (v == "conv.uint32") { o << (uint32_t) x; return o.str(); }
+    if (v == "conv.short") { o << (int) (short) x; return o.str(); }
+    if (v == "conv.uint16") { o << (unsigned) (uint16_t) x; return o.str(); }
+    if (v == "conv.uint8") { o << (unsigned) (uint8_t) x; return o.str(); }
+    if (v == "conv.schar") { o << (int) (signed char) x; return o.str(); }
+    if (v == "q.convert.int64") { int64_t t = 77; Q.convert(t, x); o << t; return o.str(); }
+    if (v == "conv.double" || v == "q.convert.double") {
+        double dd = 7.5; if (v == "conv.double") dd = (double) x; else Q.convert(dd, x);
+        uint64_t bits; memcpy(&bits, &dd, 8); char buf[32]; snprintf(buf, sizeof buf, "%016llx", (unsigned long long) bits); return buf;
+    }
+    if (v == "conv.float") {
+        float ff = (float) x; uint32_t bits; memcpy(&bits, &ff, 4); char buf[32]; snprintf(buf, sizeof buf, "%08x", bits); return buf;
+    }
+    if (v == "conv.string") { return (std::string) x; }
+    if (v == "print") { x.print(o); return o.str(); }
+    if (v == "op<<") { o << x; return o.str(); }
+    if (v == "q.write") { Q.write(o, x); return o.str(); }
+    if (v == "mod") { return str(x % toI(a[2])); }
     if (v == "ctor.copy") { Rational r(x); return str(r); }
     if (v == "assign") { Rational r(7, 5); r = x; return str(r); }
     if (v == "logcpy") { Rational r(7, 5); r.logcpy(x); return str(r); }
